@@ -57,6 +57,7 @@ func New(conf config.Config) *Server {
 
 type Server struct {
 	mu            sync.Mutex
+	rateMu        sync.Mutex // separate from mu which is held for the duration of Shutdown
 	referrerMu    sync.Mutex // serializes the read-modify-write of referrers responses
 	conf          config.Config
 	store         store.Store
@@ -157,7 +158,7 @@ func (s *Server) ServeHTTP(resp http.ResponseWriter, req *http.Request) {
 				ip = ip[:portSep]
 			}
 		}
-		s.mu.Lock()
+		s.rateMu.Lock()
 		now := time.Now()
 		limit, err := s.rateLimit.Get(ip)
 		count := 1
@@ -178,7 +179,7 @@ func (s *Server) ServeHTTP(resp http.ResponseWriter, req *http.Request) {
 			}
 		}
 		s.rateLimit.Set(ip, limit)
-		s.mu.Unlock()
+		s.rateMu.Unlock()
 		if count > s.conf.API.RateLimit {
 			// block, retry after 1 second
 			resp.Header().Add("Retry-After", "1")
